@@ -21,7 +21,7 @@ from typing import cast
 
 import numpy as np
 
-from ...data import NumericData
+from ...data import DataAssociationEnum, NumericData
 from ...objects import DrapeModel, ObjectBase
 from ...workspace import Workspace
 from .base import BaseMerger
@@ -151,6 +151,9 @@ class DrapeModelMerger(BaseMerger):
         # get all the values in the output entity
         for data in out_entity.children:
             if not isinstance(data, NumericData) or data.values is None:
+                continue
+            if data.association is not DataAssociationEnum.CELL:
+                # values of an input as a whole are carried over as they are
                 continue
             data.values = data.values[np.hstack(ind_map[:-1])]
 
